@@ -2,6 +2,7 @@
 import copy
 import dataclasses
 import io
+import os
 
 import h5py
 import numpy as np
@@ -161,7 +162,7 @@ def run(c):
     import random
     import nir
     if c["kind"] == "artefact":
-        p = "/repo/" + c["path"]
+        p = os.environ.get("NIR_REPO", "/repo") + "/" + c["path"]
         try:
             with quiet():
                 g = nir.read(p)
